@@ -601,6 +601,46 @@ func genMini(r *Rng, p Knobs, fork int) *Mini {
 		}
 		m.Scores = append(m.Scores, sc)
 	}
+	// exit queue whose last epoch is partially filled while earlier epochs hold more exits (the churn counter must
+	// restart at the later epoch), plus an ejectable validator
+	if r.Chance(30) && n >= 4 {
+		limit := int(p[0])
+		e1 := aee + uint64(r.Intn(2))
+		e2 := e1 + 1 + uint64(r.Intn(2))
+		k2 := r.Intn(limit)            // < limit at the queue end
+		k1 := limit - k2 + r.Intn(2)   // enough earlier exits to reach the limit in total
+		j := 0
+		for ; j < n-1 && k1 > 0; j++ {
+			m.Vals[j] = MV{Eff: 32 * ETH, Elig: 0, Act: 0, Exit: e1, Wd: e1 + p[5]}
+			k1--
+		}
+		for ; j < n-1 && k2 > 0; j++ {
+			m.Vals[j] = MV{Eff: 32 * ETH, Elig: 0, Act: 0, Exit: e2, Wd: e2 + p[5]}
+			k2--
+		}
+		m.Vals[n-1] = MV{Eff: p[4], Elig: 0, Act: 0, Exit: FAR, Wd: FAR} // at the ejection balance
+		for j := 0; j < n; j++ {
+			m.Bals[j] = m.Vals[j].Eff
+		}
+	}
+	// activation burst: more validators eligible for activation than the (activation) churn limit lets through,
+	// eligibility epochs on both sides of the finalized epoch
+	if (r.Chance(25) || (fork == 4 && r.Chance(50))) && n >= 5 {
+		k := 2 + r.Intn(n-3)
+		for j := 0; j < k; j++ {
+			el := fin
+			switch r.Intn(4) {
+			case 0:
+				el = fin + 1
+			case 1:
+				if fin > 0 {
+					el = fin - 1
+				}
+			}
+			m.Vals[n-1-j] = MV{Eff: 32 * ETH, Elig: el, Act: FAR, Exit: FAR, Wd: FAR}
+			m.Bals[n-1-j] = 32 * ETH
+		}
+	}
 	if r.Chance(50) { // full participation
 		for i := range m.PP {
 			if r.Chance(85) {
@@ -694,11 +734,16 @@ func run(e *Env) error {
 	e.ShardBytes = 50000
 	e.Rule = "small states (3-9 validators, tiny preset, 12 random knobs) biased to: several exit epochs with counts at/below/above the churn limit, eligibility epochs around the finalized epoch, balances around ejection balance and hysteresis thresholds, nearly empty balances, slashed validators at the half-way withdrawable epoch, leaks; each exported zrnt sub-transition function is run on the state with zrnt's own epc (LoadShuffling) and snapshot (FlattenValidators). non-trivial = the step changed the state or produced a non-empty result; distinct by inputs"
 	r := e.Rng
-	rounds := e.N(60, 900)
+	rounds := e.N(90, 900)
 	for it := 0; it < rounds; it++ {
 		p := genKnobs(r)
 		spec := mkSpec(p)
-		fork := []int{0, 0, 1, 1, 2, 3, 4}[r.Intn(7)]
+		fork := []int{0, 0, 0, 1, 1, 2, 3, 4, 4}[r.Intn(9)]
+		if fork == 4 && r.Chance(60) { // deneb: activation churn limit below the churn limit
+			p[2] = uint64(1 + r.Intn(2))
+			p[0] = uint64(3 + r.Intn(2))
+			spec = mkSpec(p)
+		}
 		m := genMini(r, p, fork)
 		if err := oneState(e, spec, p, m); err != nil {
 			return err
